@@ -140,15 +140,22 @@ func c11Body(x *explore.Ctx, server, deflate bool, nctl int, withClose, withRead
 	pm, _ := websocket.NewPreparedMessage(websocket.TextMessage, []byte("prepared"))
 	var msgs []*c09Msg
 	record := func(m *c09Msg, err error) { m.ok = err == nil }
-	big := Pattern(3, 200)
+	// 400 bytes > 2*(125+14): on a server this is the unbuffered direct path (header+buffer and
+	// the payload go to the transport as two writes); on a client it is three buffered frames
+	big := Pattern(3, 400)
+	mid := Pattern(0, 300)
 	s.Go("W", func() {
 		m := &c09Msg{typ: websocket.BinaryMessage, payload: big}
 		msgs = append(msgs, m)
 		var w io.WriteCloser
 		if l.call("NextWriter", func() (err error) { w, err = c.NextWriter(websocket.BinaryMessage); return }) == nil {
-			l.call("Write(200)", func() error { _, err := w.Write(big); return err })
+			l.call("Write(400)", func() error { _, err := w.Write(big); return err })
 			record(m, l.call("Close", func() error { return w.Close() }))
 		}
+		// WriteMessage larger than the buffer: the server's single-frame fast path with "extra"
+		m3 := &c09Msg{typ: websocket.BinaryMessage, payload: mid}
+		msgs = append(msgs, m3)
+		record(m3, l.call("WriteMessage(300)", func() error { return c.WriteMessage(websocket.BinaryMessage, mid) }))
 		m2 := &c09Msg{typ: websocket.TextMessage, payload: []byte("prepared")}
 		msgs = append(msgs, m2)
 		record(m2, l.call("WritePreparedMessage", func() error { return c.WritePreparedMessage(pm) }))
